@@ -194,8 +194,8 @@ class Oracle:
 
     def on_tell(self, i, p, y):
         hp = W.hashable(self.kind, p)
-        if self.kind in ("avg", "lnd") and hp in self.told[i]:
-            pass                                  # AverageLearner / LearnerND ignore a second result
+        if self.kind in ("avg", "lnd", "l1d") and hp in self.told[i]:
+            pass                                  # AverageLearner, LearnerND, Learner1D ignore a second result
         else:
             self.told[i][hp] = y
         self.pend[i].discard(hp)
